@@ -316,10 +316,11 @@ PROPS = {
         B("mixed", 150, 900, modes="1"),
         B("mixed", 500, 3000), B("hostile", 300, 1800, tags=[2]), B("stepall", 200, 1200, step=True),
         B("c18", 200, 1200),
-        B("gclusters", 200, 1200, modes="1", tags=[])],   # grapheme mode, not modelled: the invariant predicates on the implementation alone
+        B("gclusters", 200, 1200, modes="1", tags=SCREEN + [10])],   # grapheme mode: clusters, marks, joiners, selectors, flags and their pieces, cut anywhere
         "extra": [span_engine]},
     "C03": {"tags": SCREEN, "ppref": ("C03", "C02"), "batches": [
-        B("c03", 150, 900, step=True, kinds_wanted=[1], modes="1"),
+        B("c03", 150, 900, step=True, kinds_wanted=[1], modes="1", tags=SCREEN + [10]),
+        B("gclusters", 150, 900, modes="1", tags=SCREEN + [10]),
         B("c03", 400, 2400, step=True, kinds_wanted=[1]),
         B("c08", 150, 900)]},   # the same writes with reads cut anywhere, also inside characters
     "C04": {"tags": [2, 3, 7], "ppref": ("C04",), "batches": [
@@ -330,7 +331,7 @@ PROPS = {
         B("c06", 800, 4800, step=True, kinds_wanted=[5, 14, 2])]},
     "C07": {"tags": [2, 3, 7], "ppref": ("C07",), "batches": [
         B("c07", 800, 4800, step=True, kinds_wanted=[6, 1, 4, 5])]},
-    "C08": {"tags": ALL, "ppref": ("C08",), "batches": [B("c08", 400, 2400), B("c08", 150, 900, modes="1"), B("c08long", 40, 240, modes="01")], "extra": [grapheme_cut_engine]},
+    "C08": {"tags": ALL, "ppref": ("C08",), "batches": [B("c08", 400, 2400), B("c08", 150, 900, modes="1", tags=ALL + [10]), B("gclusters", 150, 900, modes="1", tags=ALL + [10]), B("c08long", 40, 240, modes="01")], "extra": [grapheme_cut_engine]},
     "C09": {"tags": ALL, "ppref": ("C09",), "batches": [
         B("c09", 800, 4800, step=True, kinds_wanted=[10, 13]),
         B("c09cut", 150, 900)]},   # the same sequences with reads cut anywhere, also right after ESC
